@@ -130,6 +130,14 @@ Definition xrun_ty (e : xenv) (s : xschema) (v : gval) : sexp :=
   | _ => Ls [At "ty"; s_outcome s_val u; s_outcome s_val u]
   end.
 
+(* Serialize of a native value, then Unserialize of what came out *)
+Definition xrun_sr (e : xenv) (s : xschema) (v : gval) : sexp :=
+  let se := mx_serialize FUEL e s v in
+  match se with
+  | Ok w => Ls [At "sr"; s_outcome s_val se; s_outcome s_val (mx_unser FUEL e s w)]
+  | _ => Ls [At "sr"; s_outcome s_val se]
+  end.
+
 Definition xrun_op (e : xenv) (s : xschema) (op : sexp) : sexp :=
   match op with
   | Ls [At k; vx] =>
@@ -140,6 +148,7 @@ Definition xrun_op (e : xenv) (s : xschema) (op : sexp) : sexp :=
           else if String.eqb k "s" then s_outcome s_val (mx_serialize FUEL e s v)
           else if String.eqb k "c" then s_outcome s_unit (mx_compat FUEL e s v)
           else if String.eqb k "rt" then xrun_rt e s v
+          else if String.eqb k "sr" then xrun_sr e s v
           else if String.eqb k "x" then
             Ls [At "x"; s_outcome s_val (mx_unser FUEL e s v); s_class (m_unser FUEL (erase_env e) (erase s) v)]
           else if String.eqb k "ty" then xrun_ty e s v
@@ -158,4 +167,19 @@ Definition run_xschema_case (x : sexp) : sexp :=
       | _, None => bad "schema"
       end
   | _ => bad "xschema case"
+  end.
+
+(* C14 on struct-mapped scopes (family c14xinline, label c14x):
+     (c14x ENV STRUCTS XSCHEMA XINLINED (ops OP...))  ->  (r (ops O...) (inl O...))
+   the same operations on the scope and on the scope with its self references replaced by their targets *)
+Definition run_c14x_case (x : sexp) : sexp :=
+  match x with
+  | Ls [At "c14x"; ex; stx; sx; ix; Ls (At "ops" :: ops)] =>
+      match xenv_of ex stx, xschema_of DEPTH sx, xschema_of DEPTH ix with
+      | Some e, Some s, Some si =>
+          Ls [At "r"; Ls (At "ops" :: map (xrun_op e s) ops); Ls (At "inl" :: map (xrun_op e si) ops)]
+      | None, _, _ => bad "env"
+      | _, _, _ => bad "schema"
+      end
+  | _ => bad "c14x case"
   end.
